@@ -460,6 +460,23 @@ SEARCH_PATTERNS = [
 ]
 
 
+IMPORT_SOURCES = [
+    "from m import a\nfrom .m import a\nfrom ..m import a, b\nfrom . import a\nfrom m import a, b\nfrom m import a as c\n"
+    "import m\nimport m as a\nfrom n import a\nfrom ..m import a\n",
+    "import os\nfrom m import a\nx = 1\nif c:\n    import os\n    from .m import a\n    x = 1\nelse:\n    import os\n"
+    "    from ..m import a, b\ndef f():\n    from . import a\n    from m import a\n    return a\n",
+]
+IMPORT_PATTERNS = [
+    "from m import a", "from .m import a", "from ..m import a, b", "from . import a", "from m import {{n}}",
+    "from .m import {{n}}", "from m import {{...+}}", "from ..m import {{...+}}", "from m import {{n+}}",
+    "from {{mod}} import a", "from {{mod}} import {{n}}", "from . import {{n}}", "from m import a as {{c}}",
+    "from m import {{n}}, {{k}}", "from m import a, {{...*}}", "import m", "import {{x}}", "import m as {{x}}",
+    "import os\nfrom m import a", "import os\nfrom m import {{n}}", "from m import a\nx = 1",
+    "import os\nfrom .m import {{...+}}", "from . import {{n}}\nfrom m import {{n}}",
+    "import {{...}}\nfrom ..m import {{...+}}",
+]
+
+
 def walk_impl(mods, pattern, source):
     """the search entry points on the real code: returns (kind, template, results)"""
     core, processing = mods["core"], mods["processing"]
@@ -478,6 +495,9 @@ def cases_search(mods, tier, rnd):
     out = []
     for s in SEARCH_SOURCES:
         for p in SEARCH_PATTERNS:
+            out.append({"kind": "search", "pattern": p, "source": s})
+    for s in IMPORT_SOURCES:
+        for p in IMPORT_PATTERNS:
             out.append({"kind": "search", "pattern": p, "source": s})
     n = 60 if tier == "quick" else 1500
     for _ in range(n):
@@ -661,7 +681,16 @@ def oracle_case(mods, pattern: str, source: str):
                 except Exception:  # noqa
                     out.append(("no-position", type(w).__name__))
             return out
-        want = spans(decl_findall(core, tmpl, root, core.DEFAULT_IGNORE if isinstance(tmpl, list) else ()))
+        # the declarative reading is taken from the INDEPENDENT reference compilation of the pattern
+        # text whenever the reference covers it (so that a defect of compile_template itself -- e.g. a
+        # field the compiled template no longer constrains -- shows up as a wrong search answer)
+        try:
+            dtmpl = ref_compile(core, pattern)
+            if isinstance(dtmpl, list) != isinstance(tmpl, list):
+                dtmpl = tmpl
+        except (OutOfDomain, SyntaxError):
+            dtmpl = tmpl
+        want = spans(decl_findall(core, dtmpl, root, core.DEFAULT_IGNORE if isinstance(tmpl, list) else ()))
         twin = spans(twin_findall(core, tmpl, root))
     missing = sorted(set(want) - set(found), key=str)
     extra = sorted(set(found) - set(want), key=str)
@@ -725,6 +754,9 @@ def sweep_cases():
         out.append((p, source))
     for s in SEARCH_SOURCES:
         for p in SEARCH_PATTERNS:
+            out.append((p, s))
+    for s in IMPORT_SOURCES:
+        for p in IMPORT_PATTERNS:
             out.append((p, s))
     return out
 
@@ -860,7 +892,7 @@ def check(run: common.Run):
             explicit += [shard[i] for i in (idx or [])][:3]
 
     # 4. glue: compile_template vs the independent reference
-    pats = SEARCH_PATTERNS + [p for p, _ in sweep_cases()][:400] + \
+    pats = SEARCH_PATTERNS + IMPORT_PATTERNS + [p for p, _ in sweep_cases()][:400] + \
         [p for p in (pattern_of(c["tmpl"]) for c in specs) if p][:3000]
     n_glue, glue_bad = compile_glue_check(mods, B.conv, sorted(set(pats)))
 
